@@ -31,6 +31,41 @@ def first_leaf_dt(ref):
     return ref[2] if ref is not None and len(ref) > 2 else 'ST'
 
 
+ALT = {'FIELD': '!', 'COMPONENT': '@', 'SUBCOMPONENT': '%', 'REPETITION': '$', 'ESCAPE': '/'}
+
+
+def alt_ec(ec):
+    """delimiters that differ from the element's own in every role (asked for through to_er7's argument)"""
+    out = dict(ec)
+    out.update(ALT)
+    return out
+
+
+def alt_check(run, seg, ec, expected, value, path, **where):
+    """the position holds whatever delimiters the caller asks for: the same tree encoded with other delimiters has the
+    value after the same number of (other) separators, and parses back under the same names"""
+    a = alt_ec(ec)
+    exp = expected.translate({ord(ec[k]): ALT[k] for k in ALT})
+    try:
+        out = seg.to_er7(a)
+        if out != exp:
+            run.fail('position-wrong-with-requested-delimiters', 'encoding with delimiters given to to_er7() does not put the '
+                     'value after the same number of separators', output=out, expected=exp, delimiters=''.join(ALT.values()),
+                     **where)
+            return
+        node = parse_segment(out, version=seg.version, encoding_chars=a)
+        for name in path:
+            node = getattr(node, name)
+        val = node[0].to_er7(a) if len(node) else None
+        if val != value:
+            run.fail('parse-back-wrong-with-requested-delimiters', 'parsing the text encoded with the requested delimiters '
+                     'does not yield the value under the same name', text=out, got=val, delimiters=''.join(ALT.values()),
+                     **where)
+    except Exception as ex:  # noqa
+        run.fail('position-raises-with-requested-delimiters', 'encoding/parsing with requested delimiters raises',
+                 exc=repr(ex), **where)
+
+
 def main(argv=None):
     run = Run('C02', argv)
     targets = ['Oblig/WfAll.vo']
@@ -99,6 +134,8 @@ def main(argv=None):
                                  children=[f.name for f in back.children])
                     if v in model_versions and sname != 'MSH':
                         cases.append(S.case_of(out, v, S.TOLERANT, ec))
+                    if sname != 'MSH' and (run.thorough or idx % 4 == 0):
+                        alt_check(run, seg, ec, expected, x, [fname], version=v, segment=sname, field=fname)
                 except Exception as ex:  # noqa
                     run.fail('field-position-raises', 'assigning/encoding/parsing a defined field position raises',
                              version=v, segment=sname, field=fname, exc=repr(ex))
@@ -132,6 +169,7 @@ def main(argv=None):
                                              version=v, field=fname, component=cname, text=out, got=val2)
                                 if v in model_versions:
                                     cases.append(S.case_of(out, v, S.TOLERANT, ec))
+                                alt_check(run, seg, ec, exp, cx, [fname, cname], version=v, field=fname, component=cname)
                         except Exception as ex:  # noqa
                             run.fail('component-position-raises', 'assigning/encoding/parsing a defined component position '
                                      'raises', version=v, field=fname, component=cname, exc=repr(ex))
@@ -159,6 +197,8 @@ def main(argv=None):
                                                      subcomponent=sn, text=out, got=val)
                                         if v in model_versions and k % 3 == 0:
                                             cases.append(S.case_of(out, v, S.TOLERANT, ec))
+                                        alt_check(run, seg, ec, exp, sx, [fname, cname, sn], version=v, field=fname,
+                                                  component=cname, subcomponent=sn)
                                 except Exception as ex:  # noqa
                                     run.fail('subcomponent-position-raises', 'assigning/encoding/parsing a defined '
                                              'subcomponent position raises', version=v, field=fname, component=cname,
